@@ -16,6 +16,7 @@ type vEnt struct {
 	old     bool // complete previous content
 	written int  // bytes of new content present
 	total   int  // bytes of new content intended
+	stale   bool // opened for writing without truncation while it held other data: old bytes may follow the new ones
 }
 
 var (
@@ -47,7 +48,7 @@ func vSpecExt(p string) bool {
 	return e == ".json" || e == ".yaml"
 }
 
-func vComplete(e *vEnt) bool { return e.old || (e.total > 0 && e.written == e.total) }
+func vComplete(e *vEnt) bool { return !e.stale && (e.old || (e.total > 0 && e.written == e.total)) }
 
 // the invariant a reader of the directory relies on at every instant
 func vObserve() {
@@ -99,6 +100,9 @@ func stubCreateTemp(dir, pattern string) (*os.File, error) {
 func stubFileWrite(f *os.File, b []byte) (int, error) {
 	p := vOpen[f]
 	e := vDisk[p]
+	if e == nil {
+		return 0, vPathErr("write", os.ErrClosed)
+	}
 	e.old = false
 	e.total += len(b)
 	vTouched = append(vTouched, p)
@@ -115,6 +119,58 @@ func stubFileWrite(f *os.File, b []byte) (int, error) {
 	e.written += len(b)
 	vObserve()
 	return len(b), nil
+}
+
+// os.OpenFile / os.Create / os.WriteFile: in-place (re)writing is representable - and fails the invariant when it
+// happens under a Spec name or on a file that is then published. A non-Spec-named file may be a leftover of an earlier
+// interrupted write (arbitrary previous history of the directory).
+func stubOpenFile(name string, flag int, perm os.FileMode) (*os.File, error) {
+	e, ok := vDisk[name]
+	if !ok && !vSpecExt(name) && nondetBool("leftover-file") {
+		if d, dok := vDisk[filepath.Dir(name)]; dok && d.exists {
+			e = &vEnt{exists: true, written: 1, total: 2}
+			vDisk[name] = e
+			ok = true
+		}
+	}
+	if !ok || !e.exists {
+		if flag&os.O_CREATE == 0 || vFail("openfile") {
+			return nil, vPathErr("open", os.ErrNotExist)
+		}
+		if d, dok := vDisk[filepath.Dir(name)]; !dok || !d.exists {
+			return nil, vPathErr("open", os.ErrNotExist)
+		}
+		e = &vEnt{exists: true}
+		vDisk[name] = e
+	} else if flag&os.O_EXCL != 0 && flag&os.O_CREATE != 0 {
+		return nil, vPathErr("open", os.ErrExist)
+	} else if flag&os.O_TRUNC != 0 {
+		e.old, e.written, e.total, e.stale = false, 0, 0, false
+	} else if flag&(os.O_WRONLY|os.O_RDWR) != 0 && (e.old || e.written > 0) {
+		e.stale = true
+	}
+	f := &os.File{}
+	vOpen[f] = name
+	vNames[f] = name
+	vTouched = append(vTouched, name)
+	vObserve()
+	return f, nil
+}
+
+func stubCreate(name string) (*os.File, error) {
+	return stubOpenFile(name, os.O_RDWR|os.O_CREATE|os.O_TRUNC, 0o666)
+}
+
+func stubWriteFile(name string, data []byte, perm os.FileMode) error {
+	f, err := stubOpenFile(name, os.O_WRONLY|os.O_CREATE|os.O_TRUNC, perm)
+	if err != nil {
+		return err
+	}
+	_, err = stubFileWrite(f, data)
+	if cerr := stubFileClose(f); err == nil {
+		err = cerr
+	}
+	return err
 }
 
 func stubFileClose(f *os.File) error {
